@@ -7,6 +7,7 @@ from repid.connections.abc import MessageBrokerT
 from repid.connections.in_memory.consumer import _InMemoryConsumer
 from repid.connections.in_memory.utils import DummyQueue, Message, wait_until
 from repid.logger import logger
+from repid.message import MessageCategory
 
 if TYPE_CHECKING:
     from datetime import datetime
@@ -58,7 +59,15 @@ class InMemoryMessageBroker(MessageBrokerT):
         for msg in q.processing:
             if msg.key.id_ == key.id_:
                 q.processing.remove(msg)
-                q.simple.put_nowait(msg)
+                # return the message to where its consumer has taken it from
+                category = getattr(q.holders.pop(msg, None), "category", MessageCategory.NORMAL)
+                delay = wait_until(msg.parameters) if category == MessageCategory.DELAYED else None
+                if category == MessageCategory.DEAD:
+                    q.dead.insert(0, msg)
+                elif delay is not None:
+                    q.delayed.setdefault(delay, []).insert(0, msg)
+                else:
+                    q.simple.put_nowait(msg)
                 break
 
         await asyncio.sleep(0)
